@@ -59,6 +59,9 @@ def dep_accessors(run, F):
         run.rule(r, B.RULES[r])
     run.rule('API.len', 'GetLen::len of a backend is the container\'s own length')
     run.rule('API.iter', 'TIter::titer of a backend iterates the container in logical order')
+    if F.config == 'base':
+        import pinned
+        pinned.check(run, F, 'core_defaults')
     C07.accessors(run, F)
     C07.lens_iters(run, F)
     C07.mut_slices(run, F)
@@ -100,3 +103,10 @@ def dep_backends(run):
     for cfg in ('nd', 'full'):
         dep_accessors(run, run.facts(cfg))
     run.config = keep
+
+
+def pins(run, F, *sets):
+    """confirmed decision tables of primitives / delegations (rules/pinned)"""
+    import pinned
+    for name in sets:
+        pinned.check(run, F, name)
